@@ -9,8 +9,8 @@
 //! `x == y`, `x != y`, `match x { y => 1, => 0, }` and `y == x`; the four answers are compared with the
 //! specification's prediction. The same matrix is also replayed at API level (`Variable == Variable`
 //! on values built with different hidden element types).
-use crate::seqs::{k, parallel, render_ext, render_value, run_text, struct_fields, Bag, Ran};
-use crate::util::{catch, read_ndjson};
+use crate::seqs::{content_of, k, parallel, render_ext, render_value, run_text, struct_fields, Bag, Ran};
+use crate::util::{catch, read_ndjson, Rng};
 use serde_json::{Value, json};
 use simplesl::{
     Interpreter,
@@ -89,6 +89,10 @@ fn render_expr(e: &Value, u: &mut Uses) -> String {
         "tup" => format!("({})", es(e).iter().map(|x| render_expr(x, u)).collect::<Vec<_>>().join(", ")),
         "arr" => format!("[{}]", es(e).iter().map(|x| render_expr(x, u)).collect::<Vec<_>>().join(", ")),
         "struct1" => format!("struct{{a := {}}}", render_expr(&e["e"], u)),
+        "structn" => format!(
+            "struct{{{}}}",
+            e["fs"].as_array().unwrap().iter().map(|f| format!("{} := {}", f[0].as_str().unwrap(), render_expr(&f[1], u))).collect::<Vec<_>>().join(", ")
+        ),
         other => panic!("producer expression kind {other}"),
     }
 }
@@ -348,9 +352,200 @@ fn replay(dir: &str, tier: &str) -> Value {
     })
 }
 
+// ------------------------------------------------------------------ record (impl -> spec)
+
+fn lit(v: Value) -> Value {
+    json!({"k": "lit", "v": v})
+}
+
+fn gen_content(rng: &mut Rng, depth: usize, in_array: bool) -> Value {
+    let top = if depth == 0 { 6 } else { 10 };
+    match rng.below(top) {
+        0 => json!({"k": "int", "v": rng.below(5) as i64 - 2}),
+        1 => match rng.below(6) {
+            0 => json!({"k": "float", "c": "nan", "h": 0}),
+            1 => json!({"k": "float", "c": "negzero", "h": 0}),
+            _ => json!({"k": "float", "c": "fin", "h": rng.below(7) as i64 - 2}),
+        },
+        2 => json!({"k": "string", "cps": match rng.below(4) { 0 => vec![], 1 => vec![97], 2 => vec![49], _ => vec![97, 8364] }}),
+        3 => json!({"k": "bool", "b": rng.chance(1, 2)}),
+        4 => if in_array { json!({"k": "int", "v": 1}) } else { json!({"k": "void"}) },
+        5 => if rng.chance(1, 2) { json!({"k": "cell", "id": rng.below(2)}) } else { json!({"k": "fnv", "id": rng.below(2)}) },
+        6 | 7 => {
+            let n = rng.below(5);
+            json!({"k": "array", "es": (0..n).map(|_| gen_content(rng, depth - 1, true)).collect::<Vec<_>>()})
+        }
+        8 => {
+            let n = 2 + rng.below(2);
+            json!({"k": "tuple", "es": (0..n).map(|_| gen_content(rng, depth - 1, false)).collect::<Vec<_>>()})
+        }
+        _ => {
+            let mut m = serde_json::Map::new();
+            for name in ["a", "b", "c"] {
+                if rng.chance(1, 2) {
+                    m.insert(name.into(), gen_content(rng, depth - 1, false));
+                }
+            }
+            json!({"k": "struct", "fs": m})
+        }
+    }
+}
+
+fn has_void_element(c: &Value) -> bool {
+    es(c).iter().any(|e| k(e) == "void")
+}
+
+/// A random producer expression whose value has the content `c`.
+fn gen_producer(rng: &mut Rng, c: &Value, depth: usize) -> Value {
+    gen_producer_in(rng, c, depth, false)
+}
+
+/// `strict`: the expression must keep an array static type (it is an operand of `+`), so it is not
+/// passed through an any-typed parameter, a union-typed cell or an index into a mixed array.
+fn gen_producer_in(rng: &mut Rng, c: &Value, depth: usize, strict: bool) -> Value {
+    let wrapped = |rng: &mut Rng, e: Value| match if strict { 7 } else { rng.below(8) } {
+        0 => json!({"k": "anyp", "e": e}),
+        1 if k(c) != "tuple" || es(c).len() <= 3 => json!({"k": "cellu", "e": e}),
+        2 => json!({"k": "at", "s": {"k": "arr", "es": [e, lit(json!({"k": "void"}))]}, "i": {"k": "i", "v": 0}}),
+        _ => e,
+    };
+    if depth == 0 {
+        return wrapped(rng, lit(c.clone()));
+    }
+    let e = match k(c) {
+        "tuple" => json!({"k": "tup", "es": es(c).iter().map(|x| gen_producer(rng, x, depth - 1)).collect::<Vec<_>>()}),
+        "struct" => json!({"k": "structn", "fs": struct_fields(c).iter().map(|(n, x)| json!([n, gen_producer(rng, x, depth - 1)])).collect::<Vec<_>>()}),
+        "array" => {
+            let xs = es(c);
+            let n = xs.len();
+            let arr = |xs: &[Value]| json!({"k": "array", "es": xs});
+            let filterable = xs.iter().all(|e| matches!(k(e), "int" | "float" | "string" | "array"));
+            match rng.below(10) {
+                0 => {
+                    let j = rng.below(n + 1);
+                    json!({"k": "cat", "l": gen_producer_in(rng, &arr(&xs[..j]), depth - 1, true), "r": gen_producer_in(rng, &arr(&xs[j..]), depth - 1, true)})
+                }
+                1 => {
+                    let mut padded = vec![json!({"k": "int", "v": 0})];
+                    padded.extend_from_slice(xs);
+                    padded.push(json!({"k": "string", "cps": [122]}));
+                    json!({"k": "slice", "s": lit(arr(&padded)), "a": {"k": "i", "v": 1}, "b": {"k": "i", "v": -1}, "c": {"k": "none"}})
+                }
+                2 => {
+                    let rev: Vec<Value> = xs.iter().rev().cloned().collect();
+                    json!({"k": "slice", "s": lit(arr(&rev)), "a": {"k": "none"}, "b": {"k": "none"}, "c": {"k": "i", "v": -1}})
+                }
+                3 if n >= 1 && xs.iter().all(|e| e == &xs[0]) => json!({"k": "rep", "v": gen_producer(rng, &xs[0], depth - 1), "n": n}),
+                3 if n == 0 => json!({"k": "rep", "v": lit(json!({"k": "int", "v": 7})), "n": 0}),
+                4 => json!({"k": "collect", "s": lit(c.clone())}),
+                5 if !has_void_element(c) => {
+                    let mut src = xs.to_vec();
+                    src.insert(rng.below(n + 1), json!({"k": "void"}));
+                    if rng.chance(1, 2) {
+                        json!({"k": "part", "s": lit(arr(&src)), "pred": "notvoid", "side": 0})
+                    } else {
+                        json!({"k": "part", "s": lit(arr(&src)), "pred": "isvoid", "side": 1})
+                    }
+                }
+                6 if !has_void_element(c) => {
+                    let mut src = xs.to_vec();
+                    src.insert(rng.below(n + 1), json!({"k": "void"}));
+                    json!({"k": "filter", "s": lit(arr(&src))})
+                }
+                7 if filterable => {
+                    let mut src = xs.to_vec();
+                    src.insert(rng.below(n + 1), json!({"k": "void"}));
+                    src.insert(rng.below(n + 2), json!({"k": "bool", "b": true}));
+                    json!({"k": "tfilter", "s": lit(arr(&src))})
+                }
+                _ => json!({"k": "arr", "es": xs.iter().map(|x| gen_producer(rng, x, depth - 1)).collect::<Vec<_>>()}),
+            }
+        }
+        _ => lit(c.clone()),
+    };
+    wrapped(rng, e)
+}
+
+/// A content that differs from `c` a little (or, rarely, not at all as a value: -0.0 for 0.0).
+fn mutate(rng: &mut Rng, c: &Value) -> Value {
+    match k(c) {
+        "array" | "tuple" if !es(c).is_empty() && rng.chance(2, 3) => {
+            let mut xs = es(c).to_vec();
+            let i = rng.below(xs.len());
+            match rng.below(4) {
+                0 if k(c) == "array" => {
+                    xs.remove(i);
+                }
+                1 if k(c) == "array" => xs.push(json!({"k": "int", "v": 1})),
+                _ => xs[i] = mutate(rng, &xs[i]),
+            }
+            json!({"k": k(c), "es": xs})
+        }
+        "array" if rng.chance(1, 2) && es(c).len() >= 2 && es(c).len() <= 3 => json!({"k": "tuple", "es": es(c)}),
+        "struct" => {
+            let mut m = serde_json::Map::new();
+            let fs = struct_fields(c);
+            let pick = rng.below(fs.len().max(1));
+            for (i, (n, x)) in fs.iter().enumerate() {
+                m.insert(n.clone(), if i == pick { mutate(rng, x) } else { x.clone() });
+            }
+            if fs.is_empty() || rng.chance(1, 4) {
+                m.insert("d".into(), json!({"k": "int", "v": 1}));
+            }
+            json!({"k": "struct", "fs": m})
+        }
+        "float" if c["c"] == "fin" && c["h"] == 0 => json!({"k": "float", "c": "negzero", "h": 0}),
+        "float" if c["c"] == "negzero" => json!({"k": "float", "c": "fin", "h": 0}),
+        "int" => if rng.chance(1, 2) { json!({"k": "int", "v": c["v"].as_i64().unwrap() + 1}) } else { json!({"k": "float", "c": "fin", "h": 2 * c["v"].as_i64().unwrap()}) },
+        "cell" | "fnv" => json!({"k": k(c), "id": 1 - c["id"].as_i64().unwrap()}),
+        "bool" => json!({"k": "bool", "b": !c["b"].as_bool().unwrap()}),
+        "string" => json!({"k": "string", "cps": [98]}),
+        _ => json!({"k": "array", "es": [c]}),
+    }
+}
+
+fn record(n_cases: usize, path: &str) -> Value {
+    use std::io::Write;
+    let mut rng = Rng::from_env(0xe9a1);
+    let interp = Interpreter::with_stdlib();
+    let mut f = std::io::BufWriter::new(std::fs::File::create(path).expect("create trace file"));
+    let (mut same, mut failed) = (0u64, 0u64);
+    for _ in 0..n_cases {
+        let depth = 1 + rng.below(3);
+        let cx = gen_content(&mut rng, depth, false);
+        let cy = if rng.chance(1, 2) {
+            same += 1;
+            cx.clone()
+        } else {
+            mutate(&mut rng, &cx)
+        };
+        let (ex, ey) = (gen_producer(&mut rng, &cx, depth), gen_producer(&mut rng, &cy, depth));
+        let mut u = Uses::default();
+        let (x, y) = (render_expr(&ex, &mut u), render_expr(&ey, &mut u));
+        let text = format!("{}x := {x}; y := {y}; m := match x {{ y => 1, => 0, }}; (x, y, x == y, x != y, m, y == x)", preamble(&u));
+        let rec = match run_text(&interp, &text) {
+            Ran::Val { v: Variable::Tuple(t), .. } if t.len() == 6 => {
+                let mut idents = vec![];
+                let (ox, oy) = (content_of(&t[0], &mut idents), content_of(&t[1], &mut idents));
+                json!({"op": "cmp", "x": ox, "y": oy, "eq": t[2].as_bool().copied(), "ne": t[3].as_bool().copied(),
+                       "arm": t[4].as_int().copied(), "sym": t[5].as_bool().copied(), "program": text,
+                       "intended_x": cx, "intended_y": cy})
+            }
+            other => {
+                failed += 1;
+                json!({"op": "fail", "program": text, "observed": crate::seqs::outcome_json(&other)})
+            }
+        };
+        writeln!(f, "{}", serde_json::to_string(&rec).unwrap()).unwrap();
+    }
+    f.flush().unwrap();
+    json!({"recorded": n_cases, "same_intended_content": same, "failed_to_run": failed, "path": path})
+}
+
 pub fn run(args: &[String]) -> Value {
     match args.first().map(String::as_str) {
         Some("replay") => replay(&args[1], args.get(2).map(String::as_str).unwrap_or("quick")),
+        Some("record") => record(args[1].parse().expect("count"), &args[2]),
         Some("program") => {
             // vh eqv program '<x expr json>' '<y expr json>' <mode>: render one case (replay aid)
             let (x, y) = (serde_json::from_str(&args[1]).unwrap(), serde_json::from_str(&args[2]).unwrap());
